@@ -275,13 +275,19 @@ def run(pid, tier, seed, jobs=None, replay=None, quiet=False):
             lines.append(v['detail'])
             exit_code = exit_code or 2
             continue
-        # deterministic replay from a fresh accumulator
-        R2 = Result()
-        try:
-            chk.check_case(v['case'], R2, seed)
-        except Exception:
-            R2.violation('harness/replay-exception', v['case'], traceback.format_exc()[-800:])
-        if sig not in {x['sig'] for x in R2.violations}:
+        # deterministic replay from a fresh accumulator (the recorded cases of this signature are tried in
+        # turn: a case may depend on what its worker process executed before it)
+        reproduced = False
+        for cand in by_sig[sig][:12]:
+            R2 = Result()
+            try:
+                chk.check_case(cand['case'], R2, seed)
+            except Exception:
+                R2.violation('harness/replay-exception', cand['case'], traceback.format_exc()[-800:])
+            if sig in {x['sig'] for x in R2.violations}:
+                reproduced, v = True, cand
+                break
+        if not reproduced:
             path = write_replay(pid, sig, 0, v, seed, tier)
             lines.append(f'HARNESS-ERROR property={pid} sig={sig} did not reproduce on replay '
                          f'(nondeterminism not owned) replay={path}')
